@@ -45,6 +45,8 @@ pub fn params_for(prop: &str, base: u64, idx: u64) -> Params {
 
 #[derive(Default)]
 struct Acc {
+    /// order-sensitive fingerprint of everything observed (determinism self-test)
+    log: u64,
     executions: u64,
     traces: BTreeSet<u64>,
     pair_orders: BTreeMap<String, [u64; 2]>,
@@ -64,6 +66,7 @@ fn harvest(shared: &Arc<Mutex<Shared>>, acc: &Arc<Mutex<Acc>>) {
     let viol = T.with(|t| t.borrow_mut().violation.take());
     let mut a = acc.lock().unwrap();
     a.executions += 1;
+    a.log = splitmix(a.log ^ fp ^ (steps as u64) ^ shared.lock().unwrap().current.len() as u64);
     a.traces.insert(fp);
     a.steps += steps as u64;
     for (n, o) in orders {
@@ -573,6 +576,54 @@ pub fn main() -> i32 {
         Some("check") if args.len() >= 4 => check(&args[2], &args[3]),
         Some("worker") => worker(&args[2..]),
         Some("replay") if args.len() >= 3 => replay(&args[2]),
+        Some("fingerprints") => {
+            let prop = &args[2];
+            let from: u64 = args[3].parse().unwrap();
+            let cnt: u64 = args[4].parse().unwrap();
+            for idx in (from..from + cnt).rev() {
+                let p = params_for(prop, 1, idx);
+                let acc = Arc::new(Mutex::new(Acc::default()));
+                explore(&p, sched_for(idx), splitmix(1 ^ idx.wrapping_mul(31)), 25, &acc);
+                let a = acc.lock().unwrap();
+                println!("{} {:016x} {}", idx, a.log, a.failed.as_ref().map(|f| f.1.class()).unwrap_or_default());
+            }
+            0
+        }
+        Some("selftest-determinism") => {
+            let prop = args.get(2).cloned().unwrap_or_else(|| "C03".into());
+            let n: u64 = args.get(3).and_then(|s| s.parse().ok()).unwrap_or(800);
+            let exe = std::env::current_exe().unwrap();
+            let mut results: Vec<BTreeMap<u64, String>> = Vec::new();
+            for nw in [16u64, 3] {
+                let per = (n + nw - 1) / nw;
+                let mut ch = Vec::new();
+                for w in 0..nw {
+                    let from = w * per;
+                    if from >= n {
+                        break;
+                    }
+                    let cnt = per.min(n - from);
+                    ch.push(Command::new(&exe).args(["fingerprints", &prop, &from.to_string(), &cnt.to_string()]).stdout(Stdio::piped()).spawn().unwrap());
+                }
+                let mut m = BTreeMap::new();
+                for c in ch {
+                    let o = c.wait_with_output().unwrap();
+                    for l in String::from_utf8_lossy(&o.stdout).lines() {
+                        if let Some((a, b)) = l.split_once(' ') {
+                            m.insert(a.parse::<u64>().unwrap(), b.to_string());
+                        }
+                    }
+                }
+                results.push(m);
+            }
+            let diff = results[0].iter().filter(|(k, v)| results[1].get(k) != Some(v)).count();
+            println!("tsim determinism: {} scenario instances of {} x 25 executions, executed twice (16 and 3 workers, reverse order): {} divergences", results[0].len(), prop, diff);
+            if diff > 0 {
+                1
+            } else {
+                0
+            }
+        }
         Some("one") => {
             let prop = &args[2];
             let idx: u64 = args[3].parse().unwrap();
